@@ -10,6 +10,8 @@ sequence `[1,0,...,0]` is the recorded panic `sparse-det-degenerate-sequence-pan
 -/
 import Ymq.Lemmas.WiedemannBM
 import Ymq.Lemmas.BerlekampMasseyMg
+import Ymq.Lemmas.WiedemannDetz
+import Ymq.Lemmas.WiedemannWitness
 
 namespace Ymq.C19Wied
 open Ymq.BM Ymq.Wied Polynomial Matrix
@@ -120,5 +122,50 @@ theorem detp4_false_zero_iff_deficient (p : ℕ) [hpf : Fact p.Prime] (hodd : p 
   · rintro ⟨L, taps, hL, t0, t1, t2⟩
     obtain ⟨m1, _⟩ := core_minimal_list ok seq hr h2 L taps (by rw [hlen]; omega) t0 t1 t2 out c1
     exact l0 (m1 n hL)
+
+
+/-! ### `detz`: CRT with termination on the first repeated value -/
+
+/-- **`detz` from its lanes (partial).** `detz` does NOT use the Hadamard/norm bound: it rebuilds
+the determinant after every block of four moduli and returns as soon as two consecutive values
+agree (the first comparison is with the initial value 0). What can be proved: if
+`select_crtprimes` returns (at least) eight pairwise coprime moduli below `2^64`, every lane of the
+first two blocks returns a residue of the integer `d` (`p_i ∣ r_i - d`: what
+`detp4_spec_full_complexity` gives lane by lane for `d = det M`), and already the product of the
+FIRST FOUR moduli exceeds `2|d|`, then `detz` returns `d` (without panic, `unreachable!()` not
+reached). Without the bound on the first block the statement is false:
+`detz_early_termination_witness`. `hinv` is discharged by `Ymq.C19.invMod64_invSpec`. -/
+theorem detz_of_detp_partial (isprime : ℕ → Option Bool) (inv : Ymq.IntMat.Inv)
+    (hinv : Ymq.IntMat.InvSpec inv) (m : Mat) (d : Int)
+    (p0 p1 p2 p3 p4 p5 p6 p7 : ℕ) (rest : List ℕ) (r0 r1 r2 r3 r4 r5 r6 r7 : ℕ)
+    (hsel : selectPrimes isprime m = some (p0 :: p1 :: p2 :: p3 :: p4 :: p5 :: p6 :: p7 :: rest))
+    (hb1 : detp m [p0, p1, p2, p3] = some [r0, r1, r2, r3])
+    (hb2 : detp m [p4, p5, p6, p7] = some [r4, r5, r6, r7])
+    (hp : ∀ q ∈ [p0, p1, p2, p3, p4, p5, p6, p7], 1 < q ∧ q < Ymq.IntMat.U64)
+    (hcop : [p0, p1, p2, p3, p4, p5, p6, p7].Pairwise Nat.Coprime)
+    (h0 : (p0 : Int) ∣ (r0 : Int) - d) (h1 : (p1 : Int) ∣ (r1 : Int) - d)
+    (h2 : (p2 : Int) ∣ (r2 : Int) - d) (h3 : (p3 : Int) ∣ (r3 : Int) - d)
+    (h4 : (p4 : Int) ∣ (r4 : Int) - d) (h5 : (p5 : Int) ∣ (r5 : Int) - d)
+    (h6 : (p6 : Int) ∣ (r6 : Int) - d) (h7 : (p7 : Int) ∣ (r7 : Int) - d)
+    (hd1 : -((p0 * p1 * p2 * p3 : ℕ) : Int) < 2 * d)
+    (hd2 : 2 * d < ((p0 * p1 * p2 * p3 : ℕ) : Int)) :
+    detz isprime inv m = some d := by
+  have e : (p0 :: p1 :: p2 :: p3 :: p4 :: p5 :: p6 :: p7 :: rest).length + 1 =
+      (rest.length + 7) + 2 := by simp
+  simp only [detz, hsel, Option.bind_eq_bind, Option.bind_some, e]
+  exact detzLoop_first_block inv hinv m d p0 p1 p2 p3 p4 p5 p6 p7 rest r0 r1 r2 r3 r4 r5 r6 r7 _
+    hb1 hb2 hp hcop h0 h1 h2 h3 h4 h5 h6 h7 hd1 hd2
+
+/-- **Counter-witness (new finding `sparse-det-early-termination`).** For the nonsingular 15 × 15
+matrix `advMat` (determinant `108 · p_0 p_1 p_2 p_3`, 201 bits, where `p_0 … p_3` are the moduli of
+the first block; see Ymq/Lemmas/WiedemannWitness.lean) the model of `detz` — prime selection,
+four correct lanes, CRT — returns 0 after a single block, because the first reconstruction equals
+the initial value of `res.det`. The real code returns 0 as well, in both profiles
+(`im_det_sparse`, props/c19_wied.py `WITNESSES`). -/
+theorem detz_early_termination_witness :
+    (mkMat advMat).bind (detz Ymq.Mg64.isprime64 Ymq.Arith.invMod64) = some 0 := by
+  rw [adv_valid]
+  simp only [Option.bind_some, detz, adv_primes, Option.bind_eq_bind]
+  exact adv_loop
 
 end Ymq.C19Wied
